@@ -44,3 +44,8 @@ chk("C12", "PBT over explicit constant pools (all spellings/kinds/frequencies) +
     "Each generated program is compiled with and without assembleConstants; after removing the constant blocks the instruction lists must align, every constant site must denote the same value under the independent literal decoder (pushint/pushbytes, intc*/bytec* resolved through the block, index in range), every other instruction must be identical, and both texts must behave identically on generated inputs.",
     "Trusts vf/teal/parser.py literal grammar and vf/avm.",
     "DESIGN.md section 2 C12")
+
+chk("C18", "metamorphic PBT: base program vs annotated variant (Comment/Assert comment/Pragma/Nonce/subroutine names with hostile texts); canonical instruction streams and CFGs compared, every annotated line lexed, both executed",
+    "Annotations with texts biased to line breaks, quotes, `//`, `;`, pragmas, label-like and opcode-like content are inserted at random positions of a generated program; after comment removal, label alpha-renaming and removal of Nonce's push-and-pop the instruction streams must coincide (differences that vanish under jump threading are counted as layout-only), every line of the annotated text must lex, and behaviour on generated inputs must be identical.",
+    "Trusts vf/teal/parser.py tokenizer and vf/teal/canon.py normal forms; vf/avm for the behavioural comparison.",
+    "DESIGN.md section 2 C18")
